@@ -1083,8 +1083,8 @@ func (p *Parser) parseBinaryExpression(left Node) (Node, error) {
 	// Create the current binary node
 	binaryNode := NewBinaryNode(operator, left, right, line)
 
-	// Check for another binary operator
-	if p.tokenIndex < len(p.tokens) &&
+	// Check for further binary operators
+	for p.tokenIndex < len(p.tokens) &&
 		(p.tokens[p.tokenIndex].Type == TOKEN_OPERATOR ||
 			(p.tokens[p.tokenIndex].Type == TOKEN_NAME &&
 				(p.tokens[p.tokenIndex].Value == "and" ||
@@ -1121,25 +1121,20 @@ func (p *Parser) parseBinaryExpression(left Node) (Node, error) {
 
 		nextPrecedence := getOperatorPrecedence(nextOperator)
 
-		// If the next operator has higher precedence, we need to parse it first
-		if nextPrecedence > precedence {
-			// Replace the right side with a binary expression
-			newRight, err := p.parseBinaryExpression(right)
-			if err != nil {
-				return nil, err
-			}
-
-			// Update the binary node with the new right side
-			binaryNode = NewBinaryNode(operator, left, newRight, line)
+		// Only a higher-precedence operator binds to the right operand;
+		// anything else (including the conditional operator) is left to the caller
+		if nextPrecedence <= precedence {
+			break
 		}
-	}
 
-	// Check for ternary operator after parsing the binary expression
-	if p.tokenIndex < len(p.tokens) &&
-		p.tokens[p.tokenIndex].Type == TOKEN_PUNCTUATION &&
-		p.tokens[p.tokenIndex].Value == "?" {
-		// This is a conditional expression, use the binary node as the condition
-		return p.parseConditionalExpression(binaryNode)
+		// Replace the right side with a binary expression
+		right, err = p.parseBinaryExpression(right)
+		if err != nil {
+			return nil, err
+		}
+
+		// Update the binary node with the new right side
+		binaryNode = NewBinaryNode(operator, left, right, line)
 	}
 
 	return binaryNode, nil
